@@ -1,0 +1,91 @@
+//! Process-global tap on every file mutation issued through [`crate::io::disk::DBFile`].
+//!
+//! When a sink is installed every create/open/write/truncate/sync is appended to it in
+//! program order. The tap never fails or delays the call it observes.
+
+use parking_lot::Mutex;
+use std::path::Path;
+
+#[derive(Debug, Clone, PartialEq, Eq)]
+pub enum IoEvent {
+    /// File created (truncated to zero length if it existed).
+    Create { path: String },
+    /// File opened (no mutation).
+    Open { path: String },
+    /// `len` bytes written at `offset`.
+    Write {
+        path: String,
+        offset: u64,
+        data: Vec<u8>,
+    },
+    /// File truncated to zero length.
+    Truncate { path: String },
+    /// fsync of the file.
+    Sync { path: String },
+    /// Marker inserted by the harness (acknowledgements, phase boundaries).
+    Mark { label: String },
+}
+
+static SINK: Mutex<Option<Vec<IoEvent>>> = Mutex::new(None);
+
+/// Install an empty sink (recording starts) and return whatever was recorded before.
+pub fn install() -> Option<Vec<IoEvent>> {
+    SINK.lock().replace(Vec::new())
+}
+
+/// Remove the sink (recording stops) and return its content.
+pub fn take() -> Option<Vec<IoEvent>> {
+    SINK.lock().take()
+}
+
+/// Number of events recorded so far (0 if no sink).
+pub fn len() -> usize {
+    SINK.lock().as_ref().map(|v| v.len()).unwrap_or(0)
+}
+
+/// Harness-side marker, totally ordered with the I/O events.
+pub fn mark(label: &str) {
+    if let Some(v) = SINK.lock().as_mut() {
+        v.push(IoEvent::Mark {
+            label: label.to_string(),
+        });
+    }
+}
+
+fn p(path: &Path) -> String {
+    path.to_string_lossy().into_owned()
+}
+
+pub(crate) fn on_create(path: &Path) {
+    if let Some(v) = SINK.lock().as_mut() {
+        v.push(IoEvent::Create { path: p(path) });
+    }
+}
+
+pub(crate) fn on_open(path: &Path) {
+    if let Some(v) = SINK.lock().as_mut() {
+        v.push(IoEvent::Open { path: p(path) });
+    }
+}
+
+pub(crate) fn on_write(path: &Path, offset: u64, data: &[u8]) {
+    if let Some(v) = SINK.lock().as_mut() {
+        v.push(IoEvent::Write {
+            path: p(path),
+            offset,
+            data: data.to_vec(),
+        });
+    }
+}
+
+pub(crate) fn on_truncate(path: &Path) {
+    if let Some(v) = SINK.lock().as_mut() {
+        v.push(IoEvent::Truncate { path: p(path) });
+    }
+}
+
+pub(crate) fn on_sync(path: &Path) {
+    if let Some(v) = SINK.lock().as_mut() {
+        v.push(IoEvent::Sync { path: p(path) });
+    }
+}
